@@ -270,11 +270,26 @@ def r_esc(prog, tier):
     return obs, {'xml_string_sinks': nsinks}
 
 
+def _plain_escape_of_field(a):
+    """escape(<node field>) with no entity table: &, <, > are replaced, the double quote is not"""
+    for n in ast.walk(a):
+        if isinstance(n, ast.Call) and unparse(n.func) in ('escape', 'saxutils.escape', 'xml.sax.saxutils.escape') \
+                and len(n.args) == 1 and not n.keywords:
+            if any(isinstance(x, ast.Subscript) and isinstance(x.value, ast.Attribute) and x.value.attr == 'data'
+                   and const_str(x.slice) not in ('num', 'sid') for x in ast.walk(n.args[0])):
+                return n
+    return None
+
+
 def _escaped(prog, f, a, at, depth=0):
     if isinstance(a, ast.Constant):
         return True, 'literal'
     if _is_quote(a):
         return True, 'quoteattr(...)'
+    pe = _plain_escape_of_field(a)
+    if pe is not None:
+        return False, '`%s` goes into an attribute value: escape() without an entity table leaves the double quote as it is, ' \
+                      'a `"` in the field ends the attribute (quoteattr() picks the quoting)' % unparse(pe)[:60]
     if isinstance(a, ast.Subscript) and isinstance(a.value, ast.Name) and a.value.id in f.locals:
         # local table all of whose stores are quoteattr(...) values
         tbl = a.value.id
@@ -294,6 +309,11 @@ def _escaped(prog, f, a, at, depth=0):
                     stores.append(n.value)
         if stores and all(_is_quote(v) for v in stores):
             return True, 'entry of `%s`, which holds quoteattr(...) values only' % tbl
+        for v in stores:
+            pe = _plain_escape_of_field(v)
+            if pe is not None:
+                return False, 'entry of `%s`, which receives `%s`: escape() without an entity table leaves the double quote ' \
+                              'as it is' % (tbl, unparse(pe)[:50])
         raw = [r for v in stores for r in _raw_field_reads(v)]
         if raw:
             return False, 'entry of `%s`, which receives the node field `%s` without quoteattr()' % (tbl, unparse(raw[0]))
@@ -429,6 +449,17 @@ def r_vocab(prog, tier):
     return obs, {}
 
 
+def _ifexp_leaves(e):
+    """the integer constants a (nested) conditional expression can evaluate to, or None"""
+    if isinstance(e, ast.Constant) and isinstance(e.value, int) and not isinstance(e.value, bool):
+        return [e.value]
+    if isinstance(e, ast.IfExp):
+        a, b = _ifexp_leaves(e.body), _ifexp_leaves(e.orelse)
+        if a is not None and b is not None:
+            return a + b
+    return None
+
+
 def r_tabs(prog, tier):
     obs = []
     f = prog.func('treeoutput', 'export_tabs')
@@ -449,6 +480,10 @@ def r_tabs(prog, tier):
                 if isinstance(k, ast.Constant) and isinstance(k.value, int):
                     verdict = k.value >= 1
                     why = '%d tab(s)' % k.value
+                elif _ifexp_leaves(k) is not None:
+                    leaves = _ifexp_leaves(k)
+                    verdict = min(leaves) >= 1
+                    why = 'the number of tabs is one of %s' % sorted(set(leaves))
                 elif 'max(' in unparse(k):
                     verdict, why = None, 'computed number of tabs with a lower bound: not evaluated'
                 else:
